@@ -9,6 +9,7 @@ Proved on the abstract tree; that the tree is the one encoded in the APK is C26 
 import AgVerif.Proof.Manifest
 import AgVerif.Proof.ManifestLauncher
 import AgVerif.Proof.ManifestFile
+import AgVerif.Proof.ManifestInt
 set_option linter.unusedSimpArgs false
 namespace AgVerif.C31
 open AgVerif.Manifest AgVerif.Spec.Manifest AgVerif.Proof.Manifest AgVerif.Gen.AxmlConsts
@@ -314,6 +315,25 @@ theorem effective_target_of_model (m : AppManifest) (h : m.WF) :
   · intro s ht hs; simp [AppManifest.answers, ht, hs]
   · intro ht hs; simp [AppManifest.answers, ht, hs]
 
+/-- integer attribute values: Python `int()` of the printer's decimal rendering of an int_dec value is that (two's complement)
+    integer, so integer maxSdkVersion / SDK values are reported as the declared integers -/
+theorem int_value_roundtrip (d : Nat) (h : d < 2 ^ 32) :
+    pyInt (Val.int d).render = .ok (int32 d) ∧ intOrOne (Val.int d).render = .ok (int32 d) ∧
+    intOrNone (Val.int d).render = some (.ok (int32 d)) :=
+  ⟨pyInt_render_int d h, intOrOne_render_int d h, intOrNone_render_int d h⟩
+
+/-- … in particular the effective target of a manifest with an integer targetSdkVersion (or, without target, an integer
+    minSdkVersion) is that integer -/
+theorem effective_target_int (m : AppManifest) (h : m.WF) (s : UsesSdk) (hs : m.usesSdk = some s) (d : Nat) (hd : d < 2 ^ 32) :
+    (s.target = some (.int d) → (analyse (some m.toXml)).effectiveTarget = some (.ok (int32 d))) ∧
+    (s.target = none → s.min = some (.int d) → (analyse (some m.toXml)).effectiveTarget = some (.ok (int32 d))) := by
+  obtain ⟨h1, h2, _⟩ := effective_target_of_model m h
+  constructor
+  · intro ht
+    rw [h1 (Val.int d).render (by simp [AppManifest.sdkVal, hs, ht]), intOrOne_render_int d hd]
+  · intro ht hm
+    rw [h2 (Val.int d).render (by simp [AppManifest.sdkVal, hs, ht]) (by simp [AppManifest.sdkVal, hs, hm]), intOrOne_render_int d hd]
+
 /-- `get_main_activities`: exactly the names of the enabled activities and aliases that have a filter with action MAIN and
     category LAUNCHER, each once -/
 theorem main_activities_of_model (m : AppManifest) (h : m.WF) :
@@ -421,6 +441,16 @@ example : ∃ a, analyseFile (fun _ _ => []) (encodeAxml (canonEnc true false ex
     answersOfAnalysis a = exManifest.answers :=
   let ⟨a, h1, h2, _⟩ := manifest_queries_on_file _ _ 1 exManifest (by decide +kernel) (by decide) exManifest_doc_wf
   ⟨a, h1, h2⟩
+/-- a second, differently shaped manifest: no versions, uses-sdk with string values and a reference, non-ASCII package,
+    no activities; UTF-16 pool without forced wide prefixes -/
+def exManifest2 : AppManifest :=
+  { package := [0x63, 0xFC, 0x2E, 0x78], versionCode := none, versionName := none,
+    usesSdk := some ⟨some (.str (lit "21")), none, some (.ref 0x7f050001)⟩,
+    permissions := [], features := [], activities := [], services := [lit ".S"], receivers := [lit "R"], providers := [], libraries := [] }
+example : exManifest2.WF ∧ exManifest2.fits = true := by decide +kernel
+example : wfDoc (fun _ _ => []) (canonEnc false false exManifest2) (docOf 3 exManifest2) = true := by decide +kernel
+example : exManifest2.answers.effectiveTarget = some (.ok 21) ∧ exManifest2.answers.maxSdk = .val (lit "@7F050001") ∧
+    exManifest2.answers.services = [[0x63, 0xFC, 0x2E, 0x78, 0x2E, 0x53]] := by decide +kernel
 /-- the last clause of `AppManifest.WF` is needed: with MAIN in one filter and LAUNCHER in another, androguard reports a main
     activity although no filter is a launcher filter -/
 example : (analyse (some (AppManifest.toXml { exManifest with activities :=
